@@ -111,7 +111,7 @@ func (r *R) Sx() Sx {
 		return L(Sym(r.Op), Sym(r.S[0]), s(1), N(r.I[0]), Strs(r.Strs))
 	case "wrap", "withmessage", "hint", "detail", "domain", "handledmsg", "handledindomain", "pkgmsg", "syscallerror":
 		return L(Sym(r.Op), k(0), s(0))
-	case "wrapf", "withmessagef", "safedetails", "handledmsgf", "newassertwrapped":
+	case "wrapf", "withmessagef", "safedetails", "handledmsgf", "newassertwrapped", "hintf", "detailf":
 		return L(Sym(r.Op), k(0), fmtSx(r.Fmt))
 	case "withstack", "assert", "handled", "handleassert", "pkgstack":
 		return L(Sym(r.Op), k(0))
@@ -355,6 +355,14 @@ func (r *R) Build(c *BuildCtx) error {
 		e := errors.WithStack(kid(0))
 		c.record(e, 0)
 		return e
+	case "hintf":
+		k := kid(0)
+		f, a := fmtArgs(c, r.Fmt)
+		return errors.WithHintf(k, f, a...)
+	case "detailf":
+		k := kid(0)
+		f, a := fmtArgs(c, r.Fmt)
+		return errors.WithDetailf(k, f, a...)
 	case "hint":
 		return errors.WithHint(kid(0), r.S[0])
 	case "detail":
